@@ -21,6 +21,7 @@ func init() {
 }
 
 func checkC10(c *Ctx) {
+	c10KeyText(c)
 	// errcheck-style baseline: a newly discarded error in the package is a dropped protocol/validation step
 	c.checkErrorDiscipline("errors.no-new-dropped-error", "encoding/json", map[string]string{
 	})
@@ -356,4 +357,37 @@ func jsonImporterKeyRule(c *Ctx) {
 			"a JSON key may be turned into an identifier label only when ast.StringLabelNeedsQuoting(key) is false — the same predicate the CUE printer uses; otherwise keys such as \"#a\", \"_x\" or \"a-b\" change meaning")
 		c.analysed[l.Name] = true
 	}
+}
+
+// c10KeyText: object member names are produced from labels through
+// Runtime.LabelStr -> Feature.IdentString. For a regular (string or
+// identifier) label the text must be returned unmodified: the "\x00" cut
+// belongs to hidden and let labels only, whose index string carries a
+// package qualifier. A key such as "a\u0000b" is legal JSON and a legal CUE
+// label.
+func c10KeyText(c *Ctx) {
+	f := c.fn(adtP, "Feature.IdentString")
+	cf := newCaseFn(c, f)
+	hid, let := "recv.IsHidden()", "recv.IsLet()"
+	retText := func(truth map[string]bool) (string, bool) {
+		path, ok := cf.trace(cf.g.Entry, truth)
+		if !ok || len(path) == 0 {
+			return "", false
+		}
+		rs, isRet := cf.g.Nodes[path[len(path)-1]].N.(*ast.ReturnStmt)
+		if !isRet || len(rs.Results) != 1 {
+			return "", false
+		}
+		if id, isID := rs.Results[0].(*ast.Ident); isID {
+			if v := cf.lastAssigned(path, id.Name); v != "" {
+				return v, true
+			}
+		}
+		return cf.canon(rs.Results[0]), true
+	}
+	missing := cf.missingAtoms(map[string]bool{hid: true, let: true})
+	plain, ok1 := retText(map[string]bool{hid: false, let: false})
+	okPlain := ok1 && len(missing) == 0 && strings.HasSuffix(plain, ".IndexToString(recv.safeIndex())") && !strings.Contains(plain, "Cut") && !strings.Contains(plain, "[")
+	c.check("encode.key-text-untruncated", f.Name+"/regular-label", f.Decl.Pos(), okPlain,
+		"for a label that is neither hidden nor let, IdentString must return the indexed string unmodified (member names containing U+0000 must not be cut); found "+plain+fmt.Sprintf(" (missing tests: %v)", missing))
 }
